@@ -132,6 +132,20 @@ pub enum Step {
     SplitLocal(Note, LocalOp),
     /// Wait for quiescence.
     Barrier,
+    /// Every local handle of the downlink is dropped (client: the sender of the set / actions
+    /// channel, so the task enters its read-only loop; hosted: the handle held by the agent, so the
+    /// write stream ends). The downlink keeps receiving: nothing changes for the oracle.
+    DropHandle,
+    /// The consumer of the downlink's output channel goes away (output side only; the input stays
+    /// open). Nothing fails until the downlink next writes, i.e. until a later local write. Client:
+    /// the value task enters its read-only loop when the second write after the fault finds the
+    /// failed flush, the reading side is unaffected. Hosted: a no-op inside a script (what a failed
+    /// write does to a hosted downlink - a reconnection - is driven by `hosted::Loss::OutputFault`).
+    OutputFault,
+    /// Oracle only (never executed by a driver): the downlink was given a new connection. The link
+    /// is gone without any notification, the fold restarts with the next `linked`; no callback is
+    /// demanded for it.
+    Reconnected,
 }
 
 impl Step {
@@ -141,6 +155,9 @@ impl Step {
             Step::Local(op) => op.show(),
             Step::SplitLocal(n, op) => format!("[{} | {} inside the frame]", n.show(), op.show()),
             Step::Barrier => "barrier".into(),
+            Step::DropHandle => "drop-local-handle".into(),
+            Step::OutputFault => "output-reader-gone".into(),
+            Step::Reconnected => "new-connection".into(),
         }
     }
 }
@@ -204,6 +221,11 @@ fn map_event(rng: &mut Rng, uniq: &mut Uniq, opts: &GenOpts, size_hint: u64) -> 
         16..=17 => Note::Take(rng.below(size_hint + 2)),
         _ => Note::Drop(rng.below(size_hint + 2)),
     }
+}
+
+/// A local write that certainly puts bytes on the output (used to make a write fail).
+pub fn gen_local_op(rng: &mut Rng, uniq: &mut Uniq, kind: Kind) -> LocalOp {
+    local_op(rng, uniq, kind)
 }
 
 fn local_op(rng: &mut Rng, uniq: &mut Uniq, kind: Kind) -> LocalOp {
@@ -336,4 +358,107 @@ pub fn merge(rng: &mut Rng, value: &[Step], map: &[Step]) -> Vec<(Kind, Step)> {
 
 pub fn show_script(steps: &[Step]) -> Json {
     Json::Array(steps.iter().map(|s| Json::String(s.show())).collect())
+}
+
+/// Phase of the link before each step (`result[i]` holds before `steps[i]`, `result[len]` at the
+/// end), as the notifications imply it: `before-link` (never linked so far), `linked` (not synced
+/// yet), `synced`, `between-links` (unlinked again, restartable) and `after-terminate` (an
+/// `unlinked` was received under `terminate_on_unlinked`). Used to place faults and for the
+/// coverage counters only, never for a verdict.
+pub fn phases(steps: &[Step], flags: &Flags) -> Vec<&'static str> {
+    let mut cur = "before-link";
+    let mut out = Vec::with_capacity(steps.len() + 1);
+    for s in steps {
+        out.push(cur);
+        let note = match s {
+            Step::N(n) | Step::SplitLocal(n, _) => n,
+            Step::Reconnected => {
+                if cur != "after-terminate" {
+                    cur = "between-links";
+                }
+                continue;
+            }
+            _ => continue,
+        };
+        cur = match (cur, note) {
+            ("after-terminate", _) => "after-terminate",
+            ("before-link" | "between-links", Note::Linked) => "linked",
+            ("linked", Note::Synced) => "synced",
+            ("linked" | "synced", Note::Unlinked) => {
+                if flags.terminate_on_unlinked {
+                    "after-terminate"
+                } else {
+                    "between-links"
+                }
+            }
+            (c, _) => c,
+        };
+    }
+    out.push(cur);
+    out
+}
+
+/// A position of the script chosen so that every phase present in it is equally likely (a uniform
+/// position would nearly always fall inside a synced link).
+fn position_by_phase(rng: &mut Rng, steps: &[Step], flags: &Flags) -> usize {
+    let ph = phases(steps, flags);
+    let mut present: Vec<&'static str> = ph.clone();
+    present.sort_unstable();
+    present.dedup();
+    let want = *rng.pick(&present);
+    let candidates: Vec<usize> = ph.iter().enumerate().filter(|(_, p)| **p == want).map(|(i, _)| i).collect();
+    *rng.pick(&candidates)
+}
+
+/// No local write at or after `from`: the handle is gone (or the write side is dead and the set
+/// channel is no longer drained, so further writes would only fill it).
+fn strip_locals_from(steps: &mut Vec<Step>, from: usize) {
+    let tail: Vec<Step> = steps
+        .drain(from..)
+        .filter_map(|s| match s {
+            Step::Local(_) => None,
+            Step::SplitLocal(n, _) => Some(Step::N(n)),
+            other => Some(other),
+        })
+        .collect();
+    steps.extend(tail);
+}
+
+/// The local handle is dropped at a point of the script (any phase, also before `linked`); the
+/// notifications continue. Returns the script and the position of the `DropHandle` step.
+pub fn with_handle_drop(rng: &mut Rng, mut steps: Vec<Step>, flags: &Flags) -> (Vec<Step>, usize) {
+    let pos = position_by_phase(rng, &steps, flags);
+    strip_locals_from(&mut steps, pos);
+    steps.insert(pos, Step::DropHandle);
+    (steps, pos)
+}
+
+/// The write side of a value downlink fails at a point of the script: the reader of its output goes
+/// away and two local sets follow (the first is buffered and its flush fails, the second meets the
+/// failed flush - that is when the client task gives up writing). Returns the script and the
+/// position of the first step after the second set.
+pub fn with_write_failure(rng: &mut Rng, uniq: &mut Uniq, mut steps: Vec<Step>, flags: &Flags) -> (Vec<Step>, usize) {
+    let pos = position_by_phase(rng, &steps, flags);
+    strip_locals_from(&mut steps, pos);
+    let cluster = [Step::OutputFault, Step::Local(LocalOp::SetV(uniq.next())), Step::Local(LocalOp::SetV(uniq.next()))];
+    for (i, s) in cluster.into_iter().enumerate() {
+        steps.insert(pos + i, s);
+    }
+    (steps, pos + 3)
+}
+
+/// A prefix of a legal script that ends inside a link (after `linked`, mostly after `synced`): the
+/// point at which the connection of a hosted downlink is going to fail. None when the script has no
+/// such point (cannot happen for a generated legal script, which starts with a link).
+pub fn cut_inside_link(rng: &mut Rng, steps: &[Step], flags: &Flags) -> Option<Vec<Step>> {
+    let ph = phases(steps, flags);
+    // Cut after step i-1, i.e. keep steps[..i].
+    let synced: Vec<usize> = (1..=steps.len()).filter(|i| ph[*i] == "synced").collect();
+    let linked: Vec<usize> = (1..=steps.len()).filter(|i| ph[*i] == "linked").collect();
+    let pool = if !synced.is_empty() && (linked.is_empty() || rng.chance(2, 3)) { &synced } else { &linked };
+    if pool.is_empty() {
+        return None;
+    }
+    let at = *rng.pick(pool);
+    Some(steps[..at].to_vec())
 }
